@@ -2,6 +2,7 @@ import TantivyModel.Proofs.SSTable.Refine
 import TantivyModel.Proofs.SSTable.Writer
 import TantivyModel.Proofs.SSTable.Stream
 import TantivyModel.Proofs.SSTable.OrdToTerm
+import TantivyModel.Proofs.SSTable.RangeDict
 /-!
 # C15 — Term dictionaries behave as ordered maps from byte strings
 
@@ -158,6 +159,50 @@ theorem C15_stream_scan {σ V} (A : Automaton σ) (lo hi : Bound) (ord : Nat) (x
     ((∀ k, A.accepts k = true) → scanStream lo hi false ord xs = scanSearch A lo hi false ord xs) :=
   ⟨scanSearch_filter A lo hi ord xs hs, fun hA => scanStream_eq_scanSearch A hA lo hi false ord xs⟩
 
+/-- `Dictionary::range().{ge,gt,le,lt}.limit(l).into_stream()` — file_slice_for_range (first
+block by the lower key, last block by the upper key, moved down by the limit) + Streamer — against
+the specification, for every sorted map, block length, bound kind (≥, >, ≤, <, unbounded; empty
+and inverted ranges) and limit: the streamed entries with the ordinals the streamer reports are a
+prefix of the specification range with its true ordinals; without a limit they are the whole
+range; with a limit at least `min l |range|` entries are produced. The call fails only without
+the `first_block > last_block` guard, only for inverted bounds, where the range is empty
+(known finding C15:inverted-range-across-blocks-panics). -/
+theorem C15_ops_refine_range {V} (blockLen : Nat) (m : Assoc V) (hs : SortedMap m)
+    (lo hi : Bound) (limit : Option Nat) :
+    match (build blockLen m).stream lo hi limit with
+    | some out =>
+        out <+: ((m.zipIdx 0).filter (fun p => matchLo lo p.1.1 && matchHi hi p.1.1)).map
+          (fun p => (p.2, p.1.1, p.1.2)) ∧
+        IsLimitedRange m lo hi limit (out.map (fun p => (p.2.1, p.2.2)))
+    | none => Gen.RANGE_INVERTED_GUARD ≠ 1 ∧ range m lo hi = [] ∧
+        ∃ a b, lo.key? = some a ∧ hi.key? = some b ∧ lexLt b a = true := by
+  have h := stream_refine (build_view blockLen m hs) hs lo hi limit
+  have hfull : fullStream m lo hi = ((m.zipIdx 0).filter (fun p => matchLo lo p.1.1 && matchHi hi p.1.1)).map
+      (fun p => (p.2, p.1.1, p.1.2)) := by
+    unfold fullStream streamSpec
+    congr 2; funext p; simp [allAut_accepts]
+  cases hst : (build blockLen m).stream lo hi limit with
+  | none =>
+    rw [hst] at h
+    obtain ⟨hg, hf, hab⟩ := h
+    refine ⟨hg, ?_, hab⟩
+    rw [← fullStream_range, hf]; rfl
+  | some out =>
+    rw [hst] at h
+    obtain ⟨rest, hf, hnone, hsome⟩ := h
+    simp only
+    refine ⟨⟨rest, by rw [← hfull, hf]⟩, ⟨rest.map (fun p => (p.2.1, p.2.2)), ?_⟩, ?_⟩
+    · rw [← fullStream_range, hf, List.map_append]
+    · cases limit with
+      | none =>
+        simp only
+        rw [← fullStream_range, hf, hnone rfl]; simp
+      | some l =>
+        simp only
+        rcases hsome l rfl with hr | hl
+        · rw [← fullStream_range, hf, hr]; simp; omega
+        · simp only [List.length_map]; omega
+
 /-- partial form of `C15_automaton_stream`: streaming over the blocks that survive ANY sound
 pruning (a dropped block holds no entry passing bounds and automaton) yields exactly
 `search A m lo hi` — keys and values, in order; block pruning never drops an accepted key.
@@ -194,11 +239,7 @@ theorem C15_inverted_range_counterexample :
     range [(([1] : Key), 10), ([2], 20), ([3], 30)] (.incl [3]) (.excl [1]) = [] := by decide
 
 /- Still to prove (full statements; the harness compares these operations on every run):
-   C15_ops_refine_range       : SortedMap m → (build L m).stream lo hi limit = some out →
-                                  IsLimitedRange m lo hi limit (out.map (fun e => (e.2.1, e.2.2)))
-                                  ∧ ordinals of `out` are the spec ordinals
-                                (`stream = none` exactly when first block > last block + 1: known
-                                 finding C15:inverted-range-across-blocks-panics)
+   C15_prefix_range           : isPrefixOf p k ↔ matchLo (prefixBounds p).1 k ∧ matchHi (prefixBounds p).2 k
    C15_delta_scan             : StrictInc ks → deltaScan k (deltaEntries [] ks) 0 0 = scanOrNext ks k 0
    C15_automaton_stream       : A.CanMatchSound → keys/values of (build L m).search A lo hi
                                   = search A m lo hi, i.e. `canBlockMatch` is a sound pruning in the
